@@ -22,6 +22,15 @@ every quiescent state must have (QuiescentExact); `vh_dnssrv c39e` runs them on 
 retention and a 30 ms eviction interval (timestamps placed >= 5 minutes away from the cut-off) and waits
 (bounded) until exactly the predicted packets remain, each indexed at its timestamp.
 
+Mixed batches (added after an independently seeded change - "a batch opened by an eviction check commits
+without fsync" - went unnoticed): the model has `disk` (last durable commit) next to `durable`, the kind of the
+message that opened a batch, and the switch DurabilityByOpener, for which TLC refutes CommittedOnDisk.  The
+generator SpecM starts from a database that holds an expired packet with its CheckExpired already queued, so that
+the check opens the first batch and the client's upserts fall into it; the driver gets there by storing an expired
+packet, closing, and reopening the store with a one-hour retention on the same recording backend (the eviction
+task's start-up scan queues the check; "dnssrv.evict.scan_done" tells when).  "snap" messages (a read snapshot
+through the hook `dump`) let the client see that the batch has committed; images are also cut at every reply.
+
 Design deviation: batch boundaries are forced by count (B messages per batch, Get as a message like any
 other) rather than by max_batch_time, and the eviction task's start-up snapshot is awaited through the hook
 event "dnssrv.evict.scan_done" so that it cannot consume a slot of a batch.
@@ -54,6 +63,7 @@ META = {
 }
 
 MSGS = 6
+MSGS_M = 5
 
 
 def canon_point(p):
@@ -71,16 +81,20 @@ def run(ctx):
             crash_part(ctx, [rep["case"]], {rep["case"]["wid_b"]: {tuple(k): set(v) for k, v in rep["allowed"]}}, {rep["case"]["wid_b"]: rep["final"]}, 0)
         return
     # 1. the model satisfies C39 (safety with crashes, time-outs and eviction; liveness of eviction)
-    base = {"Keys": '{"k1", "k2"}', "Tss": "{1, 3}", "Pls": "{1}", "B": 2, "Timeouts": "TRUE", "Evict": "TRUE", "Eviction": 2, "MaxNow": 4}
+    base = {"Keys": '{"k1", "k2"}', "Tss": "{1, 3}", "Pls": "{1}", "B": 2, "Timeouts": "TRUE", "Evict": "TRUE", "Eviction": 2, "MaxNow": 4,
+            "DurabilityByOpener": "FALSE"}
     ctx.tlc("dnsserver", "PacketStore", cfg="PacketStore_mc.cfg", mode="mc", timeout=3000,
             constants=dict(base, MaxMsgs=ctx.pick(2, 3), Crashes="TRUE", Now0=3, KeepRunning="FALSE"),
-            require_actions=["Send", "Handle", "Recv", "CommitFull", "CommitTimeout", "Close", "Crash", "Reopen", "EvictScan", "Tick"])
+            require_actions=["Send", "Handle", "HandleSnapIdle", "Recv", "CommitFull", "CommitTimeout", "Close", "Crash", "Reopen", "EvictScan", "Tick"])
+    # anti-vacuity: "durability chosen by the message that opened the batch" loses an acknowledged, committed upsert
+    ctx.tlc("dnsserver", "PacketStore", cfg="PacketStore_refute.cfg", mode="mc", timeout=3000, expect_violation="CommittedOnDisk",
+            constants=dict(base, MaxMsgs=2, Crashes="TRUE", Now0=3, KeepRunning="FALSE", DurabilityByOpener="TRUE"))
     ctx.tlc("dnsserver", "PacketStore", cfg="PacketStore_live.cfg", mode="mc", timeout=3000, coverage=False,
             constants=dict(base, MaxMsgs=2, Crashes="FALSE", Now0=4, KeepRunning="TRUE"))
     # 2. crash images
     rng = random.Random(ctx.seed)
     fixed = [2, 200002, 880202, 123456, 989898]      # replace within / across batches, gets, many keys
-    per_b = ctx.pick(8, 60)
+    per_b = ctx.pick(6, 60)
     cases, allowed, final = [], {}, {}
     for b in (2, 3):
         wids = sorted(set(fixed + [rng.randrange(10 ** MSGS) for _ in range(per_b)]))
@@ -98,6 +112,26 @@ def run(ctx):
                 cases.append({"wid_b": key, "b": b, "msgs": r["msgs"]})
         if len(seen) != len(wids):
             raise ToolError("generator covered %d of %d workloads" % (len(seen), len(wids)))
+    # mixed batches: an eviction check opens the batch, client upserts fall into it
+    def wid_of(digits):
+        return sum(d * 10 ** i for i, d in enumerate(digits))
+    fixed_m = [wid_of(d) for d in ([2, 8, 9, 6, 9], [2, 9, 9, 0, 9], [6, 9, 2, 9, 9], [3, 1, 9, 8, 9])]
+    for b in (2, 3):
+        wids = sorted(set(fixed_m + [rng.randrange(10 ** MSGS_M) for _ in range(ctx.pick(2, 30))]))
+        res = ctx.tlc("dnsserver", "MC_PacketStore", cfg="PacketStore_mixed.cfg", mode="gen", timeout=3000,
+                      constants={"B": b, "MaxMsgs": MSGS_M, "Workloads": "{%s}" % ", ".join(str(w) for w in wids)})
+        seen = set()
+        for r in res.replays:
+            key = "m%d/%d" % (r["wid"], b)
+            a = allowed.setdefault(key, {})
+            for p in r["points"]:
+                a.setdefault((p["sent"], p["acked"]), set()).add(canon_point(p))
+            final.setdefault(key, set()).add(canon_point(r["points"][-1]))
+            if key not in seen:
+                seen.add(key)
+                cases.append({"wid_b": key, "b": b, "msgs": r["msgs"], "mixed": True})
+        if len(seen) != len(wids):
+            raise ToolError("generator covered %d of %d mixed workloads" % (len(seen), len(wids)))
     for k, f in final.items():
         if len(f) != 1:
             raise ToolError("model: final state of workload %s is not unique: %s" % (k, f))
@@ -116,14 +150,17 @@ def run(ctx):
     evict_part(ctx, [r for _, r in ev.values()])
     ctx.cov["rule"] = ("crash part: one case = (workload, backend-operation prefix) reopened; workloads = %d fixed + seeded random 6-message "
                        "sequences over 2 keys x 2 timestamps x 2 payloads + gets, batch sizes 2 and 3, every prefix since the store was "
-                       "opened; eviction part: every upsert workload of the bound; non-trivial = a prefix that ends inside a commit or "
+                       "opened, plus mixed-batch workloads (expired packet present, the eviction check opens the batch, upserts / gets / "
+                       "snapshots follow); eviction part: every upsert workload of the bound; non-trivial = a prefix that ends inside a commit or "
                        "after at least one commit / an eviction workload with an expired packet" % len(fixed))
     ctx.cov["exhaustive"] = False
     ctx.assume("a crash loses nothing that was written before it (quick tier); redb recovers any such prefix")
     ctx.assume("wall clock moves less than 5 minutes during the eviction part")
 
 
-def classify(state, allowed_states):
+def classify(state, allowed_states, earlier=()):
+    if state in earlier:
+        return "committed_packet_lost"      # an older content: something that had committed by now is missing
     if state.startswith(("open-failed", "store-open-failed", "dump-failed")):
         return "open_failed"
     if "?" in state or "!" in state:
@@ -166,7 +203,11 @@ def crash_part(ctx, cases, allowed, final, subsets):
             ctx.count(case_key=[c["wid_b"], cut["from"], cut["subset"]], nontrivial=(cut["state"] != min(a[(0, 0)])), n=1)
             ctx.cov["evaluations"] += n - 1
             if cut["state"] not in ok_states:
-                ctx.report({"kind": "crash_image", "class": classify(cut["state"], ok_states), "subset": cut["subset"]},
+                earlier = set()
+                for (s, k), v in a.items():
+                    if s <= cut["sent"] and k <= cut["acked"]:
+                        earlier |= v
+                ctx.report({"kind": "crash_image", "class": classify(cut["state"], ok_states, earlier), "subset": cut["subset"]},
                            "image after backend op %d (sent %d, acked %d%s) of workload %s (b=%d) reopens as %s; the model allows %s"
                            % (cut["from"], cut["sent"], cut["acked"], ", subset of unsynced writes" if cut["subset"] else "", msgs, c["b"],
                               cut["state"], sorted(ok_states)),
@@ -178,9 +219,10 @@ def crash_part(ctx, cases, allowed, final, subsets):
                 ctx.report({"kind": "crash_image", "class": "clean_close_lost_batch", "subset": False},
                            "after a clean close workload %s (b=%d) holds %s, the model says %s" % (msgs, c["b"], last["state"], final[c["wid_b"]]),
                            {"part": "crash", "case": c, "allowed": [[list(k), sorted(v)] for k, v in a.items()], "final": final[c["wid_b"]]})
-        if len(states_seen) > 2:
-            ctx.sample({"workload": ["%s %s ts%d pl%d" % m for m in msgs], "batch_size": c["b"], "backend_ops": o["backend_ops"],
-                        "images_reopened": o["reopened"], "distinct_contents_seen": sorted(states_seen)}, limit=2)
+        if len(states_seen) > 2 and not any(x.get("mixed_batch_opened_by_eviction_check") == bool(c.get("mixed")) for x in ctx.cov["samples"]):
+            ctx.sample({"workload": ["%s %s ts%d pl%d" % m for m in msgs], "batch_size": c["b"], "mixed_batch_opened_by_eviction_check": bool(c.get("mixed")),
+                        "backend_ops": o["backend_ops"],
+                        "images_reopened": o["reopened"], "distinct_contents_seen": sorted(states_seen)}, limit=3)
     ctx.cov["images_reopened"] = ctx.cov.get("images_reopened", 0) + reopened
     ctx.log("c39 crash: %d workloads, %d images reopened" % (len(cases), reopened))
 
